@@ -60,8 +60,9 @@ ASSUMPTIONS = [
     "whose solo outcome is not reproducible is skipped)",
     "an execution stopped by the watchdog (a thread blocked on a lock held by a parked thread, or an extremely "
     "slow machine) is inconclusive and not scored",
-    "no yield while any <module> frame is on the thread's stack (import lock); cold BACKEND_REGISTRY (first "
-    "validate of a process) is not explored, MODEL_CACHE is explored through fresh model classes",
+    "no yield while any <module> frame is on the thread's stack (import lock); the cold BACKEND_REGISTRY (first "
+    "validate calls of a process) is explored by the 'cold' family, one freshly started interpreter per schedule "
+    "(single preemption, dense over the first yield points); MODEL_CACHE is explored through fresh model classes",
     "returned frames / failure cases are compared by value (fp.snapshot), error text after scrubbing addresses",
 ]
 
@@ -576,6 +577,73 @@ def enum_double(tier):
                         yield {"workload": w, "schedule": [[i, p], [j, q], [i, INF]]}
 
 
+# ------------------------------------------------------------------ cold process: first validations of a process
+
+
+def _cold_workloads():
+    gt0 = [["gt", 0]]
+    return [
+        _wl("cold/pd-distinct", [_schema("pd", [_col("a", checks=gt0)]), _schema("pd", [_col("a", "float64")])], [
+            _call(0, "pd", {"a": [1, 2]}),
+            _call(1, "pd", {"a": [0.5, 1.5]}),
+        ]),
+        _wl("cold/pd-shared", [_schema("pd", [_col("a", checks=gt0)])], [
+            _call(0, "pd", {"a": [1, 2]}),
+            _call(0, "pd", {"a": [-1, 2]}, lazy=True),
+        ]),
+    ]
+
+
+def enum_cold(tier):
+    """single-preemption schedules of the very first validate calls of a process: dense over the first yield points
+    (backend registration, lazy imports), sparse afterwards"""
+    seed = int(os.environ.get("VERIF_SEED", "1") or 1)
+    dense, sparse = (36, 6) if tier == "quick" else (160, 40)
+    for k, w in enumerate(_cold_workloads()):
+        if tier == "quick" and k > 0:
+            continue
+        for i, j in ((0, 1), (1, 0)):
+            ps = list(range(1, dense + 1)) + [dense + (seed % 7) + 1 + 37 * q for q in range(sparse)]
+            for p in ps:
+                yield {"workload": w, "schedule": [[i, p], [j, INF]], "cold": True}
+
+
+def eval_cold(case):
+    """every call of the first, concurrent validations of a fresh interpreter returns / raises what it does alone"""
+    import subprocess
+    import sys
+
+    ev = Eval()
+    w = case["workload"]
+    ev.labels.append("cold:" + w.get("name", "?"))
+    env = dict(os.environ)
+    try:
+        p = subprocess.run([sys.executable, "-W", "ignore", "-m", "harness.props._c07_cold"], input=json.dumps(case),
+                           capture_output=True, text=True, timeout=120, env=env,
+                           cwd=os.path.dirname(os.path.dirname(os.path.dirname(os.path.abspath(__file__)))))
+    except subprocess.TimeoutExpired:
+        ev.skipped = "inconclusive-timeout"
+        return ev
+    line = next((l for l in p.stdout.splitlines() if l.startswith("C07COLD ")), None)
+    if line is None:
+        raise HarnessError("cold driver produced no result: " + (p.stderr or p.stdout)[-800:])
+    out = json.loads(line[len("C07COLD "):])
+    if out["status"] != "ok":
+        ev.skipped = "inconclusive-watchdog"
+        return ev
+    p_at = case["schedule"][0][1]
+    reached = p_at < out["steps"][case["schedule"][0][0]] if out.get("steps") else True
+    ev.labels.append("cold:preempted" if out.get("n_preemptions") else "cold:no-preemption (call shorter than p)")
+    ev.nontrivial = bool(out.get("n_preemptions"))
+    for i, (got, want) in enumerate(zip(out["results"], out["solo"])):
+        if canon(got) != canon(want):
+            ev.add("cold-outcome-differs:" + str(got.get("type") or got.get("k")),
+                   {"call": i, "schedule": case["schedule"], "scheduled": got, "solo": want, "reached": reached})
+    if out.get("cfg_changed"):
+        ev.add("cold-config-changed", {"schedule": case["schedule"]})
+    return ev
+
+
 # ------------------------------------------------------------------ generated workloads
 
 _OK = {"int64": _INT_OK, "float64": _FLT_OK, "str": _STR_OK}
@@ -718,6 +786,7 @@ FAMILIES = [
                             "preempted-in-window=config-context"]),
     Family("double", evaluate, enumerate=enum_double, shards_quick=2, shards_thorough=12,
            required_labels=["preempted-in-window=config-context"]),
+    Family("cold", eval_cold, enumerate=enum_cold, shards_quick=16, shards_thorough=16),
     Family("multi", evaluate, strategy=strat_multi, n_quick=110, n_thorough=1000, shards_quick=4, shards_thorough=16,
            required_labels=["expect=independent", "class=pd-shared-noop", "class=pd-distinct"]),
 ]
